@@ -79,6 +79,10 @@ pub struct Sched {
     others_steps: Vec<std::sync::atomic::AtomicU64>,
     finished: std::sync::atomic::AtomicU64,
     finished_flags: Vec<AtomicBool>,
+    /// actor threads that were retired in place (parked for good inside a system call) and must not be joined
+    detached: Vec<AtomicBool>,
+    /// record hooks outside the filter as "@name" marks in the step list (no scheduling point)
+    marks: bool,
     n: usize,
 }
 
@@ -124,7 +128,10 @@ fn current() -> Option<(Arc<Sched>, usize)> {
 
 impl Sched {
     fn new(n: usize, span_yields: bool, filter: Option<Vec<&'static str>>) -> Self {
+        let marks = filter.as_ref().map(|f| f.contains(&"@marks")).unwrap_or(false);
         Self {
+            marks,
+            detached: (0..n).map(|_| AtomicBool::new(false)).collect(),
             filter,
             others_steps: (0..n).map(|_| std::sync::atomic::AtomicU64::new(0)).collect(),
             finished: std::sync::atomic::AtomicU64::new(0),
@@ -175,6 +182,59 @@ impl Sched {
         }
     }
 
+    /// What the thread epilogue does, for an actor that stops in place (crash injected inside a
+    /// system call, or abort): the thread never runs again and is not joined.
+    fn retire_in_place(&self, id: usize) -> ! {
+        {
+            let mut g = self.inner.lock().unwrap();
+            g.actors[id].status = Status::Finished;
+            g.actors[id].pred = None;
+            if g.token == Some(id) {
+                g.token = None;
+            }
+            g.progress += 1;
+            self.detached[id].store(true, Ordering::SeqCst);
+            self.finished.fetch_add(1, Ordering::SeqCst);
+            self.finished_flags[id].store(true, Ordering::SeqCst);
+            self.cv.notify_all();
+        }
+        loop {
+            std::thread::park();
+        }
+    }
+
+    /// `yield_at` for callers that must not unwind (the callback from the system-call shim runs
+    /// on top of C frames): on abort the actor is retired in place instead.
+    fn yield_at_nounwind(&self, id: usize, name: &str) {
+        let mut g = self.inner.lock().unwrap();
+        if g.abort {
+            drop(g);
+            self.retire_in_place(id);
+        }
+        g.actors[id].status = Status::Parked;
+        g.actors[id].at = name.to_string();
+        g.actors[id].pred = None;
+        if g.token == Some(id) {
+            g.token = None;
+        }
+        self.cv.notify_all();
+        loop {
+            if g.abort {
+                drop(g);
+                self.retire_in_place(id);
+            }
+            if g.token == Some(id) && g.actors[id].status == Status::Running {
+                return;
+            }
+            g = self.cv.wait(g).unwrap();
+        }
+    }
+
+    fn record_mark(&self, id: usize, name: &str) {
+        let mut g = self.inner.lock().unwrap();
+        g.steps.push(Step { actor: id, name: format!("@{name}") });
+    }
+
     fn record_span(&self, id: usize, name: &str, begin: bool, label: &str) {
         let mut g = self.inner.lock().unwrap();
         let at_step = g.steps.len();
@@ -209,6 +269,8 @@ impl rip_kernel::verif::Hooks for SchedHooks {
             if s.wants(name) {
                 s.yield_at(id, name, None);
                 maybe_crash();
+            } else if s.marks {
+                s.record_mark(id, name);
             }
         }
     }
@@ -265,6 +327,81 @@ pub trait ActorEnv {
 
 thread_local! {
     static ENV: RefCell<Option<Box<dyn ActorEnv>>> = const { RefCell::new(None) };
+}
+
+/// Engine S over system calls: asks the preloaded shim (harness/shim/crashshim.c) to call back
+/// before every file-system call on a path under $RIPV_PREFIX. Returns false when the shim is
+/// not loaded in this process.
+pub fn install_fs_callback() -> bool {
+    unsafe {
+        let sym = libc::dlsym(libc::RTLD_DEFAULT, c"ripv_set_fs_callback".as_ptr());
+        if sym.is_null() {
+            return false;
+        }
+        let set: extern "C" fn(extern "C" fn(*const std::os::raw::c_char, *const std::os::raw::c_char)) = std::mem::transmute(sym);
+        set(fs_callback);
+        true
+    }
+}
+
+/// File names with run-specific parts (uuids, pids, timestamps) normalised, so that the same
+/// schedule has the same step names in every execution.
+fn normalise_file_name(path: &str) -> String {
+    let base = path.rsplit('/').next().unwrap_or(path);
+    let mut out = String::new();
+    let mut run = String::new();
+    let flush = |run: &mut String, out: &mut String| {
+        if !run.is_empty() {
+            // hex / digit runs of 4+ characters are ids, pids or times
+            if run.len() >= 4 && run.chars().all(|c| c.is_ascii_hexdigit() || c == '-') {
+                out.push('#');
+            } else {
+                out.push_str(run);
+            }
+            run.clear();
+        }
+    };
+    for c in base.chars() {
+        if c.is_ascii_hexdigit() || (c == '-' && !run.is_empty()) {
+            run.push(c);
+        } else {
+            flush(&mut run, &mut out);
+            out.push(c);
+        }
+    }
+    flush(&mut run, &mut out);
+    out
+}
+
+extern "C" fn fs_callback(op: *const std::os::raw::c_char, path: *const std::os::raw::c_char) {
+    let Some((s, id)) = current() else {
+        return;
+    };
+    if !s.wants("fs.") {
+        return;
+    }
+    let (op, path) = unsafe { (std::ffi::CStr::from_ptr(op).to_string_lossy(), std::ffi::CStr::from_ptr(path).to_string_lossy()) };
+    let name = format!("fs.{op}:{}", normalise_file_name(&path));
+    s.yield_at_nounwind(id, &name);
+    // crash injection at system-call granularity: die BEFORE the call is performed
+    let die = CRASH.with(|c| {
+        let mut c = c.borrow_mut();
+        match c.as_mut() {
+            Some((0, flag)) => {
+                flag.store(true, Ordering::SeqCst);
+                true
+            }
+            Some((k, _)) => {
+                *k -= 1;
+                false
+            }
+            None => false,
+        }
+    });
+    if die {
+        CRASH.with(|c| *c.borrow_mut() = None);
+        s.retire_in_place(id);
+    }
 }
 
 /// Installs environment seams for a thread that is not an actor (post-execution checks on the
@@ -534,8 +671,10 @@ pub fn run_once(actors: Vec<ActorBody>, prefix: &[usize], span_yields: bool, fil
             sched.cv.notify_all();
         }
     }
-    for h in handles {
-        let _ = h.join();
+    for (i, h) in handles.into_iter().enumerate() {
+        if !sched.detached[i].load(Ordering::SeqCst) {
+            let _ = h.join();
+        }
     }
     let g = sched.inner.lock().unwrap();
     let panicked = (0..n).filter(|&i| g.actors[i].status == Status::Panicked).collect();
